@@ -463,4 +463,7 @@ theorem propose_stepFacts {D : Data} {s : State} (hI : InitFacts D) (hK : keysDi
 
 theorem mem_allVars (v : VarId) : v ∈ allVars := by cases v <;> simp [allVars]
 
+theorem flipFlag_length (fl : List Bool) (i : Nat) : (flipFlag fl i).length = fl.length := by
+  unfold flipFlag; split <;> simp
+
 end Crem.Catchment
